@@ -37,6 +37,16 @@ type Cfg struct {
 	M         int64  `json:"m"`          // fuse minimum error count
 	Cooldown  int64  `json:"cooldown"`   // hard cool-down seconds
 	Start     int64  `json:"start"`
+	Replicas  int    `json:"replicas,omitempty"` // replicas in the slave group (0 or 1: one; 2: two, reduced alphabet)
+	Depth     int    `json:"depth,omitempty"`    // BFS depth for this configuration (0: the plan's)
+}
+
+// NRep is the number of replicas of the configuration (1 or 2).
+func (c Cfg) NRep() int {
+	if c.Replicas >= 2 {
+		return 2
+	}
+	return 1
 }
 
 // Event kinds: "R" replica probe round with outcome A (N>1: N rounds, PingPeriod apart),
@@ -45,11 +55,24 @@ type Cfg struct {
 // error: a session that had selected the replica earlier only now gets its connection error —
 // the real getConnWithFuse(node) is called for the replica whatever its status is by now,
 // "T" the clock advances by D seconds.
+//
+// With two replicas: "R" carries one outcome per replica (A for replica 0, B for replica 1 —
+// the real loop probes every node of the group in one tick), "E" and "L" address replica I.
 type Event struct {
 	K string `json:"k"`
 	A string `json:"a,omitempty"`
+	B string `json:"b,omitempty"`
+	I int    `json:"i,omitempty"`
 	D int64  `json:"d,omitempty"`
 	N int    `json:"n,omitempty"`
+}
+
+// Out is the scripted probe outcome of replica i in a replica round.
+func (e Event) Out(i int) string {
+	if i == 1 {
+		return e.B
+	}
+	return e.A
 }
 
 func (e Event) String() string {
@@ -57,12 +80,16 @@ func (e Event) String() string {
 	case "T":
 		return fmt.Sprintf("T+%d", e.D)
 	case "E", "L":
-		return e.K
+		return fmt.Sprintf("%s%d", e.K, e.I)
+	}
+	a := e.A
+	if e.B != "" {
+		a += "/" + e.B
 	}
 	if e.N > 1 {
-		return fmt.Sprintf("%s:%sx%d", e.K, e.A, e.N)
+		return fmt.Sprintf("%s:%sx%d", e.K, a, e.N)
 	}
-	return e.K + ":" + e.A
+	return e.K + ":" + a
 }
 
 // Replica probe outcomes (what the scripted MySQL answers).
@@ -88,14 +115,14 @@ type World struct {
 	Cfg     Cfg
 	Slice   *backend.Slice
 	Master  *backend.NodeInfo
-	Replica *backend.NodeInfo
+	Reps    []*backend.NodeInfo
 	mPool   *fakepool.Pool
-	rPool   *fakepool.Pool
+	rPools  []*fakepool.Pool
 	Now     int64
-	mOut    string // scripted outcome of the next master probe
-	rOut    string
-	getErr  error
-	Died    string // set when a health-check loop returned by itself
+	mOut    string   // scripted outcome of the next master probe
+	rOut    []string // scripted outcome of the next probe of replica i
+	failGet int      // index of the replica whose pool Get fails with a connection error (-1: none)
+	Died    string   // set when a health-check loop returned by itself
 }
 
 func (w *World) script(out *string, replica bool) func(p *fakepool.Pool) (backend.PooledConnect, error) {
@@ -155,28 +182,37 @@ func (w *World) script(out *string, replica bool) func(p *fakepool.Pool) (backen
 // New builds a fresh world; vclock is enabled (process-global: one world at a time).
 func New(c Cfg) *World {
 	vclock.Enable(time.Unix(c.Start, 0))
-	w := &World{Cfg: c, Now: c.Start, mOut: "ok", rOut: "ok"}
+	w := &World{Cfg: c, Now: c.Start, mOut: "ok", failGet: -1}
 	clock := func() int64 { return vclock.Now().Unix() }
 	w.mPool = fakepool.New("10.0.0.1:3306", "dc")
-	w.rPool = fakepool.New("10.0.0.2:3306", "dc")
-	for _, p := range []*fakepool.Pool{w.mPool, w.rPool} {
-		p.Clock = clock
-		p.ForceLastChecked(c.Start) // connectionPoolImpl starts with lastChecked = creation time
-	}
+	w.mPool.Clock = clock
+	w.mPool.ForceLastChecked(c.Start) // connectionPoolImpl starts with lastChecked = creation time
 	w.mPool.GetCheckFn = w.script(&w.mOut, false)
-	w.rPool.GetCheckFn = w.script(&w.rOut, true)
-	w.rPool.GetFn = func(p *fakepool.Pool) (backend.PooledConnect, error) {
-		if w.getErr != nil {
-			return nil, w.getErr
-		}
-		return p.NewConn(), nil
-	}
 	w.Master = &backend.NodeInfo{Address: w.mPool.AddrS, Datacenter: "dc", Weight: 1, ConnPool: w.mPool, Status: backend.StatusUp}
-	w.Replica = &backend.NodeInfo{Address: w.rPool.AddrS, Datacenter: "dc", Weight: 1, ConnPool: w.rPool, Status: backend.StatusUp}
+	w.rOut = make([]string, c.NRep())
+	slave := &backend.DBInfo{}
+	for i := 0; i < c.NRep(); i++ {
+		i := i
+		w.rOut[i] = "ok"
+		p := fakepool.New(fmt.Sprintf("10.0.0.%d:3306", 2+i), "dc")
+		p.Clock = clock
+		p.ForceLastChecked(c.Start)
+		p.GetCheckFn = w.script(&w.rOut[i], true)
+		p.GetFn = func(p *fakepool.Pool) (backend.PooledConnect, error) {
+			if w.failGet == i {
+				return nil, mysql.NewConnTypeError(p.AddrS, "failed to dial")
+			}
+			return p.NewConn(), nil
+		}
+		w.rPools = append(w.rPools, p)
+		n := &backend.NodeInfo{Address: p.AddrS, Datacenter: "dc", Weight: 1, ConnPool: p, Status: backend.StatusUp}
+		w.Reps = append(w.Reps, n)
+		slave.Nodes = append(slave.Nodes, n)
+	}
 	s := &backend.Slice{Namespace: "ns", ProxyDatacenter: "dc", HealthCheckSql: healthSQL,
 		FuseEnabled: "on", FuseWindowSize: c.W, FuseMinErrorCount: c.M}
 	s.Master = &backend.DBInfo{Nodes: []*backend.NodeInfo{w.Master}}
-	s.Slave = &backend.DBInfo{Nodes: []*backend.NodeInfo{w.Replica}}
+	s.Slave = slave
 	s.StatisticSlave = &backend.DBInfo{Nodes: []*backend.NodeInfo{}}
 	for _, d := range []*backend.DBInfo{s.Master, s.Slave} {
 		if err := d.InitBalancers("dc"); err != nil {
@@ -194,6 +230,8 @@ func New(c Cfg) *World {
 		ev.Fatalf("unknown policy %q", c.Policy)
 	}
 	if c.Policy != "none" {
+		// the real initialisation path of parseSlices: every node of the group gets its
+		// strategies from Slice.InitFuseRecoveryPolicy -> DBInfo.InitFuseRecoveryPolicy
 		if err := s.InitFuseRecoveryPolicy(s.Slave); err != nil {
 			ev.Fatalf("InitFuseRecoveryPolicy: %v", err)
 		}
@@ -269,10 +307,18 @@ func (w *World) runLoopOnce(name string, loop func(ctx context.Context)) bool {
 	return ok
 }
 
-type Status struct{ MasterUp, ReplicaUp bool }
+// Status: ReplicaUp[1] is true (and meaningless) in one-replica configurations.
+type Status struct {
+	MasterUp  bool
+	ReplicaUp [2]bool
+}
 
 func (w *World) Status() Status {
-	return Status{MasterUp: w.Master.IsStatusUp(), ReplicaUp: w.Replica.IsStatusUp()}
+	st := Status{MasterUp: w.Master.IsStatusUp(), ReplicaUp: [2]bool{true, true}}
+	for i, n := range w.Reps {
+		st.ReplicaUp[i] = n.IsStatusUp()
+	}
+	return st
 }
 
 // Apply executes one primitive event (N is expanded by the caller) on the real objects.
@@ -282,13 +328,23 @@ func (w *World) Apply(e Event) {
 		w.Now += e.D
 		vclock.Set(time.Unix(w.Now, 0))
 	case "E":
-		w.getErr = mysql.NewConnTypeError(w.rPool.AddrS, "failed to dial")
-		_, _ = w.Slice.GetSlaveConn(w.Slice.Slave, backend.LocalSlaveReadClosed)
-		w.getErr = nil
+		// a fresh selection through the real GetSlaveConn that ends on replica I, whose pool
+		// answers with a connection error. With two replicas the round robin may hand out the
+		// other (healthy) replica first: select again until replica I's pool was asked (never,
+		// if it is down — GetSlaveConn skips down nodes).
+		w.failGet = e.I
+		for try := 0; try < 2*len(w.Reps); try++ {
+			before := w.rPools[e.I].Gets
+			_, _ = w.Slice.GetSlaveConn(w.Slice.Slave, backend.LocalSlaveReadClosed)
+			if w.rPools[e.I].Gets > before {
+				break
+			}
+		}
+		w.failGet = -1
 	case "L":
-		w.getErr = mysql.NewConnTypeError(w.rPool.AddrS, "failed to dial")
-		_, _ = backend.VerifGetConnWithFuse(w.Slice, w.Replica)
-		w.getErr = nil
+		w.failGet = e.I
+		_, _ = backend.VerifGetConnWithFuse(w.Slice, w.Reps[e.I])
+		w.failGet = -1
 	case "M":
 		w.mOut = e.A
 		if !w.runLoopOnce("master", func(ctx context.Context) {
@@ -297,7 +353,9 @@ func (w *World) Apply(e Event) {
 			w.Died = "master"
 		}
 	case "R":
-		w.rOut = e.A
+		for i := range w.rOut {
+			w.rOut[i] = e.Out(i)
+		}
 		if !w.runLoopOnce("replica", func(ctx context.Context) {
 			backend.VerifRunSlaveLoop(w.Slice, ctx, w.Slice.Slave, w.Cfg.DownAfter, w.Cfg.LagLimit)
 		}) {
@@ -326,42 +384,52 @@ func clamp(v, hi int64) int64 {
 // rendered completely, relative to now - now%W (see C26 for the symmetry argument), where a
 // window whose newest bucket is older than W seconds behaves like an empty one only after the
 // next Trigger — so it is rendered as is. Fake pools carry no state besides lastChecked.
+// With two replicas (b)-(e) are rendered per replica (from each node's own strategy objects,
+// whatever objects those are). The balancer's round-robin counter is not part of the key:
+// event E selects again until the addressed replica was picked, so its effect does not depend
+// on the counter.
 func (w *World) Key() string {
 	var sb strings.Builder
 	st := w.Status()
 	da := int64(w.Cfg.DownAfter)
-	fmt.Fprintf(&sb, "m%v/%d r%v/%d", st.MasterUp, clamp(w.Now-w.mPool.GetLastChecked(), da), st.ReplicaUp, clamp(w.Now-w.rPool.GetLastChecked(), da))
-	switch rs := w.Replica.RecoveryStrategy.(type) {
-	case *backend.HardCoolDownStrategy:
-		cp, lf := backend.VerifHardState(rs)
-		fmt.Fprintf(&sb, " h%d", clamp(w.Now-lf, cp))
-	case *backend.GradualRecoveryStrategy:
-		n, c, lr, _ := backend.VerifGradualState(rs)
-		fmt.Fprintf(&sb, " g%d/%d/%d", n, c, clamp(w.Now-lr, 2*PingPeriod+1))
-	}
-	if sw, ok := w.Replica.FuseStrategy.(*backend.SlidingWindow); ok && sw != nil {
+	fmt.Fprintf(&sb, "m%v/%d", st.MasterUp, clamp(w.Now-w.mPool.GetLastChecked(), da))
+	for i, node := range w.Reps {
+		fmt.Fprintf(&sb, " r%d:%v/%d", i, st.ReplicaUp[i], clamp(w.Now-w.rPools[i].GetLastChecked(), da))
+		switch rs := node.RecoveryStrategy.(type) {
+		case *backend.HardCoolDownStrategy:
+			cp, lf := backend.VerifHardState(rs)
+			fmt.Fprintf(&sb, " h%d", clamp(w.Now-lf, cp))
+		case *backend.GradualRecoveryStrategy:
+			n, c, lr, _ := backend.VerifGradualState(rs)
+			fmt.Fprintf(&sb, " g%d/%d/%d", n, c, clamp(w.Now-lr, 2*PingPeriod+1))
+		}
+		sw, ok := node.FuseStrategy.(*backend.SlidingWindow)
+		if !ok || sw == nil {
+			continue
+		}
 		en, startSec, all, buckets := backend.VerifWindowState(sw)
-		if en {
-			base := w.Now - w.Now%w.Cfg.W
-			newest := int64(-1 << 62)
-			for _, b := range buckets {
-				if !b.Nil && b.StartTime > newest {
-					newest = b.StartTime
-				}
+		if !en {
+			continue
+		}
+		base := w.Now - w.Now%w.Cfg.W
+		newest := int64(-1 << 62)
+		for _, b := range buckets {
+			if !b.Nil && b.StartTime > newest {
+				newest = b.StartTime
 			}
-			if all == 0 || w.Now-newest >= w.Cfg.W {
-				// nothing recorded, or the newest bucket (= time of the last Trigger, whose
-				// startSec is that time-W+1) is at least W old: the next Trigger computes
-				// delta >= W in slide and resets the window completely, whatever it holds
-				sb.WriteString(" w:empty")
-			} else {
-				fmt.Fprintf(&sb, " w:n%d s%d a%d", w.Now-base, startSec-base, all)
-				for _, b := range buckets {
-					if b.Nil {
-						sb.WriteString("[-]")
-					} else {
-						fmt.Fprintf(&sb, "[%d:%d]", b.StartTime-base, b.ErrorCount)
-					}
+		}
+		if all == 0 || w.Now-newest >= w.Cfg.W {
+			// nothing recorded, or the newest bucket (= time of the last Trigger, whose
+			// startSec is that time-W+1) is at least W old: the next Trigger computes
+			// delta >= W in slide and resets the window completely, whatever it holds
+			sb.WriteString(" w:empty")
+		} else {
+			fmt.Fprintf(&sb, " w:n%d s%d a%d", w.Now-base, startSec-base, all)
+			for _, b := range buckets {
+				if b.Nil {
+					sb.WriteString("[-]")
+				} else {
+					fmt.Fprintf(&sb, "[%d:%d]", b.StartTime-base, b.ErrorCount)
 				}
 			}
 		}
